@@ -316,7 +316,7 @@ impl<L> ClientBuilder<L> {
 		let (send_receive_task_sync_tx, send_receive_task_sync_rx) = mpsc::channel(1);
 		let manager = ThreadSafeRequestManager::new();
 		#[cfg(jsonrpsee_verif)]
-		let verif_manager = manager.clone();
+		let verif_manager = Arc::downgrade(&manager.0);
 
 		let (ping_interval, inactivity_stream, inactivity_check) = match self.ping_config {
 			None => (IntervalStream::pending(), IntervalStream::pending(), InactivityCheck::Disabled),
@@ -394,7 +394,7 @@ impl<L> ClientBuilder<L> {
 		let (send_receive_task_sync_tx, send_receive_task_sync_rx) = mpsc::channel(1);
 		let manager = ThreadSafeRequestManager::new();
 		#[cfg(jsonrpsee_verif)]
-		let verif_manager = manager.clone();
+		let verif_manager = Arc::downgrade(&manager.0);
 
 		let ping_interval = PendingIntervalStream::pending();
 		let inactivity_stream = PendingIntervalStream::pending();
@@ -453,7 +453,7 @@ pub struct Client<L = RpcLogger<RpcService>> {
 	service: L,
 	/// Verification hook: handle to the request manager shared with the background tasks.
 	#[cfg(jsonrpsee_verif)]
-	verif_manager: ThreadSafeRequestManager,
+	verif_manager: std::sync::Weak<std::sync::Mutex<RequestManager>>,
 }
 
 impl Client<Identity> {
@@ -468,7 +468,8 @@ impl<L> Client<L> {
 	/// `(requests, subscriptions, batches, notification_handlers)`.
 	#[cfg(jsonrpsee_verif)]
 	pub fn verif_table_sizes(&self) -> (usize, usize, usize, usize) {
-		self.verif_manager.lock().verif_sizes()
+		// A weak handle: the hook must not keep the manager (and the pending calls' channels) alive.
+		self.verif_manager.upgrade().map_or((0, 0, 0, 0), |m| m.lock().expect(NOT_POISONED).verif_sizes())
 	}
 
 	/// Checks if the client is connected to the target.
